@@ -5,6 +5,7 @@
 package wire
 
 import (
+	"golibcheck/internal/paths"
 	"fmt"
 	"go/ast"
 	"go/constant"
@@ -119,6 +120,9 @@ type Extractor struct {
 	ctxs  map[*types.Func]*FuncCtx
 	cache map[string][]Node
 	IOPkg string
+	// accessor: calls of single-return accessors of the stream type -> the expression they stand for
+	// on the caller's stream (one node per call site, so that bindings made on it are found again)
+	accessor map[*ast.CallExpr]ast.Expr
 }
 
 func NewExtractor(p *core.Program) *Extractor {
@@ -1399,6 +1403,28 @@ func (w *walker) call(v *ast.CallExpr, out *[]Node, outer bool, bind interface{}
 			*out = append(*out, &Call{Pos: v.Pos(), Callee: fn, Expr: v, Fn: w.c, StreamArg: -1})
 			return
 		default:
+			// an unexported accessor of the stream type itself whose body is one `return <expr>`
+			// (func (in *DataInputX) readArrayLen() int { return int(in.ReadShort()) }): the call
+			// stands for that expression, read on the caller's stream
+			if fn != nil {
+				if hf := w.x.P.FuncOf(fn); hf != nil && hf.Decl.Body != nil && len(hf.Decl.Body.List) == 1 && len(v.Args) == 0 && hf.Pkg == w.c.FI.Pkg {
+					if rs, ok := hf.Decl.Body.List[0].(*ast.ReturnStmt); ok && len(rs.Results) == 1 && hf.Decl.Recv != nil && len(hf.Decl.Recv.List) == 1 && len(hf.Decl.Recv.List[0].Names) == 1 {
+						repl := map[types.Object]ast.Expr{w.c.Info.Defs[hf.Decl.Recv.List[0].Names[0]]: sel.X}
+						ex, cached := w.x.accessor[v]
+						if !cached {
+							ex, _ = paths.Subst(w.c.Info, rs.Results[0], repl).(ast.Expr)
+							if w.x.accessor == nil {
+								w.x.accessor = map[*ast.CallExpr]ast.Expr{}
+							}
+							w.x.accessor[v] = ex
+						}
+						if ex != nil {
+							visit(ex, outer)
+							return
+						}
+					}
+				}
+			}
 			*out = append(*out, &Unknown{Pos: v.Pos(), Reason: "unclassified stream method " + name})
 			return
 		}
